@@ -72,7 +72,6 @@ Definition can_false (p : f64) : bool := p_valid p && flt p fone.
 (** [Cauchy::new(median, scale)] succeeds iff [scale > 0] *)
 Definition cauchy_ok (scale mscale : f64) : bool := flt fzero (fmul scale mscale).
 
-Definition fbits_eq (x y : f64) : bool := Z.eqb (to_bits x) (to_bits y).
 
 Definition real_step_ok (mp ms : f64) (scale : f64) (mn mx : option f64) (x x' : f64) : bool :=
   p_valid mp &&
@@ -132,6 +131,18 @@ Section Mut.
                      end
                  end) m' (Some c).
 
+  Fixpoint arr_check (chk : path -> pctx -> value -> value -> option pctx)
+           (p : path) (l l' : list value) (i : nat) (c : pctx) : option pctx :=
+    match l, l' with
+    | [], [] => Some c
+    | a :: r, b :: r' =>
+        match chk (p ++ [PIdx i]) c a b with
+        | Some c' => arr_check chk p r r' (S i) c'
+        | None => None
+        end
+    | _, _ => None
+    end.
+
   Fixpoint mut_check (s : spec) (p : path) (c : pctx) (v v' : value) {struct s} : option pctx :=
     match s, v, v' with
     | SReal _ sc mn mx, VReal x, VReal x' => if real_step_ok mp ms sc mn mx x x' then Some c else None
@@ -155,17 +166,7 @@ Section Mut.
                end
            end) members c
     | SArray vt _, VArray l, VArray l' =>
-        if negb (Nat.eqb (length l) (length l')) then None else
-        (fix go (l l' : list value) (i : nat) (c : pctx) : option pctx :=
-           match l, l' with
-           | [], [] => Some c
-           | a :: r, b :: r' =>
-               match mut_check vt (p ++ [PIdx i]) c a b with
-               | Some c' => go r r' (S i) c'
-               | None => None
-               end
-           | _, _ => None
-           end) l l' 0%nat c
+        if negb (Nat.eqb (length l) (length l')) then None else arr_check (mut_check vt) p l l' 0%nat c
     | SAnonMap vt _ mn mx, VAnonMap m, VAnonMap m' =>
         if negb (p_valid mp && nodup_n (keys_n m')) then None else
         let n := length m in
